@@ -286,7 +286,7 @@ func ReferenceCases() []*Case {
 	for _, kind := range kinds {
 		for _, fm := range forms {
 			for _, cont := range []string{"plain", "array", "map"} {
-				for _, extra := range []bool{false, true} {
+				for _, extra := range []int{0, 1, 2} {
 					target := mk(kind)
 					user := file("foo/v1", "a")
 					p := &Program{}
@@ -308,17 +308,23 @@ func ReferenceCases() []*Case {
 						t = MapOf(t)
 					}
 					fields := []*Field{fld("ref", t)}
-					if extra {
-						// a second, unrelated package in the bundle whose name shares a segment
+					if extra > 0 {
+						// a second, unrelated package in the bundle whose name shares a segment,
+						// imported with an alias (1) or without (2: default name "baz")
 						of := file("bar/baz/v1", "y")
 						of.Add(mk(kind))
 						p.Files = append(p.Files, of)
-						user.Imports = append(user.Imports, Import{Pkg: "bar.baz.v1", Alias: "bz"})
-						fields = append(fields, fld("second", RefTo(of.Decls[0].(*Decl), "bz")))
+						if extra == 1 {
+							user.Imports = append(user.Imports, Import{Pkg: "bar.baz.v1", Alias: "bz"})
+							fields = append(fields, fld("second", RefTo(of.Decls[0].(*Decl), "bz")))
+						} else {
+							user.Imports = append(user.Imports, Import{Pkg: "bar.baz.v1"})
+							fields = append(fields, fld("second", RefTo(of.Decls[0].(*Decl), "baz")))
+						}
 					}
 					user.Decls = append([]any{setFile(obj("User", fields...), user)}, user.Decls...)
 					p.Files = append([]*File{user}, p.Files...)
-					out = append(out, &Case{ID: fmt.Sprintf("ref:%s:%s:%s:%v", kind, fm.name, cont, extra), Family: "references", Coord: fmt.Sprintf("references|kind=%s|form=%s", kind, fm.name), P: p})
+					out = append(out, &Case{ID: fmt.Sprintf("ref:%s:%s:%s:%d", kind, fm.name, cont, extra), Family: "references", Coord: fmt.Sprintf("references|kind=%s|form=%s", kind, fm.name), P: p})
 				}
 			}
 		}
